@@ -26,7 +26,8 @@ var c18Dirs = []struct{ spelled, real string }{
 	{"t/in/..", "t"}, {"t/in/../", "t"}, {"t/in/../in", "t/in"}, {"./x/.././t/", "t"},
 }
 
-var c18Bases = []string{"a", "b", "ab", "a.b"}
+// base names of template files; the empty one makes a file whose whole name is the extension
+var c18Bases = []string{"a", "b", "ab", "a.b", ""}
 var c18Subs = []string{"", "sub/", "sub/deep/", "d.tw/", "layouts/"}
 
 // writeFiles creates files (relative paths) under root
